@@ -1054,6 +1054,35 @@ func (lc *lookupCtx) selected(sel ssa.Value, at *ssa.BasicBlock, depth int) (boo
 			okAll, why = false, "the element is not taken from d.Elements"
 			return
 		}
+		// chosen by position: &d.Elements[pos] where pos was set to the loop index on the found path
+		if _, idx, _ := elementsElem(v); idx != nil {
+			if ph, isPhi := idx.(*ssa.Phi); isPhi {
+				header := false
+				for _, pr := range ph.Block().Preds {
+					if ph.Block().Dominates(pr) {
+						header = true
+					}
+				}
+				if !header {
+					for i, e := range ph.Edges {
+						if _, isK := e.(*ssa.Const); isK {
+							continue // the "not found" position
+						}
+						pr := ph.Block().Preds[i]
+						found := false
+						for _, cm := range cmps {
+							if _, cidx, ok := elementsElem(cm.elem); ok && cidx == e && (cm.blk == pr || cm.blk.Dominates(pr)) && len(cm.blk.Preds) == 1 {
+								found = true
+							}
+						}
+						if !found {
+							okAll, why = false, "a position is recorded without a comparison of that element's Index with the tag's index"
+						}
+					}
+					return
+				}
+			}
+		}
 		for _, cm := range cmps {
 			if sameElementsElem(cm.elem, v) && (cm.blk == at || cm.blk.Dominates(at)) && len(cm.blk.Preds) == 1 {
 				return
